@@ -118,12 +118,17 @@ def make_case(ck, cid, m, style, old, nprobes, rng, has_cond=True, cond_extra=No
     head, tail, ids = gd.file_wire(m, T)
     cw, fl = gd.cond_wire(mm, lines, has_cond, cond_header, ids)
     mline = core.fcase("c11", [1 if old else 0] + head + aux["isign"] + tail + aux["probe_wire"] + cw, fl)
+    # the same case with the two files handed over as characters (coq/Geom/RunC11Lex.v)
+    gtext = open(os.path.join(d, "model.geom"), "rb").read()
+    ctext = open(os.path.join(d, "model.cond"), "rb").read() if has_cond else b""
+    lex_args = dict(m=m, T=T, files=dict(gd.write_geom.files), has_cond=has_cond, old=old, isign=list(aux["isign"]), probe_wire=list(aux["probe_wire"]), fl=list(fl))
+    lline = core.fcase("c11lex", gd.lex_wire(m, T, lex_args["files"], gtext, ctext, has_cond, old, aux["isign"], aux["probe_wire"]), fl)
     hline = core.fcase("c11", [1, cid, 1 if has_cond else 0, 1 if old else 0], [c for p in probes for c in p])
     # expected conductivity per domain name: the first entry of that name
     first = {}
     for l in lines:
         if l[0] == "e" and l[1] not in first: first[l[1]] = float(l[2])
-    return dict(cid=cid, model=mm, mline=mline, hline=hline, probes=probes, aux=aux, style=style, old=old, has_cond=has_cond, dir=d,
+    return dict(cid=cid, model=mm, mline=mline, lline=lline, lex_args=lex_args, hline=hline, probes=probes, aux=aux, style=style, old=old, has_cond=has_cond, dir=d,
                 cond_lines=[list(l) for l in lines], cond_header=cond_header, cond_first=first, tokens=T, orig=m)
 
 def feq(a, b): return (a == b) or (a != a and b != b)
@@ -364,7 +369,46 @@ def main(replay=None):
         cid = 100000; d = os.path.join(ck.workdir, "c%d" % cid); shutil.rmtree(d, ignore_errors=True); shutil.copytree(src, d)
         shutil.copy(os.path.join(d, "HeadNNb1.geom"), os.path.join(d, "model.geom"))
         nnb = core.fcase("c11", [1, cid, 0, 0], [])
+    # lexer-level variants of some cases: the text of model.geom / model.cond is altered, only the character-level
+    # model and the library are compared on them
+    lexcases = []; lexstat = {}
+    if not replay:
+        pool = [c for c in cases if not c["tag"].startswith("error")]
+        for q in range(min(2 * len(pool), 90 if quick else 300)):
+            c = pool[rng.randrange(len(pool))]; la = c["lex_args"]
+            which = rng.choice(["geom", "geom", "cond"]) if c["has_cond"] else "geom"
+            kind = rng.choice(gd.LEX_MUTATIONS if which == "geom" else gd.COND_MUTATIONS)
+            gtext = open(os.path.join(c["dir"], "model.geom"), "rb").read()
+            ctext = open(os.path.join(c["dir"], "model.cond"), "rb").read() if c["has_cond"] else b""
+            new = gd.mutate_geom(gtext, kind, rng) if which == "geom" else gd.mutate_cond(ctext, kind, rng)
+            if new is None: continue
+            if which == "geom": gtext = new
+            else: ctext = new
+            cid = 200000 + q; d = os.path.join(ck.workdir, "c%d" % cid); shutil.rmtree(d, ignore_errors=True); shutil.copytree(c["dir"], d)
+            open(os.path.join(d, "model.geom"), "wb").write(gtext)
+            if c["has_cond"]: open(os.path.join(d, "model.cond"), "wb").write(ctext)
+            lexcases.append(dict(tag="lex:%s:%s" % (which, kind), of=c["tag"], dir=d,
+                                 lline=core.fcase("c11lex", gd.lex_wire(la["m"], la["T"], la["files"], gtext, ctext, la["has_cond"], la["old"], la["isign"], la["probe_wire"]), la["fl"]),
+                                 hline=core.fcase("c11", [1, cid, 1 if la["has_cond"] else 0, 1 if la["old"] else 0], [x for p_ in c["probes"] for x in p_]),
+                                 geom=gtext.decode(errors="replace"), cond=ctext.decode(errors="replace")))
+            dist[lexcases[-1]["tag"]] = dist.get(lexcases[-1]["tag"], 0) + 1
+    lo = core.run_model([c["lline"] for c in cases] + [c["lline"] for c in lexcases])
+    if lexcases:
+        _, lio, _ = core.run_harness(hb, [c["hline"] for c in lexcases], ck.workdir, timeout=90, tag="lex", max_restarts=3)
+        for c, m_, i_ in zip(lexcases, lo[len(cases):], lio):
+            mi, mf = core.fparse(m_); ii, if_ = core.fparse(i_)
+            lexstat[c["tag"]] = lexstat.get(c["tag"], []) + [mi[0] if mi else None]
+            if ii is None or mi != ii or len(mf) != len(if_) or not all(feq(a, b) for a, b in zip(mf, if_)):
+                ck.violation("lexer %s" % c["tag"], "character-level reader model and library disagree on a textual variant (%s of a %s case): model %s, library %s"
+                             % (c["tag"], c["of"], (mi or ["?"])[:1], (ii or [i_[:20]])[:1]),
+                             dict(kind="lexer", geom=c["geom"], cond=c["cond"], model_out=m_[:2000], impl_out=i_[:2000]), found_input=False)
+    lex_same = 0
     mo = core.run_model([c["mline"] for c in cases])
+    for c, a, b in zip(cases, mo, lo):
+        if a != b:
+            ck.violation("lexer vs token-level reader (%s)" % c["tag"].split(":")[0], "the character-level and the token-level reader models disagree on %s (syntax %s)" % (c["tag"], c["style"]),
+                         dict(kind="lexer-token", geom=open(os.path.join(c["dir"], "model.geom")).read(), token_out=a[:1500], lexer_out=b[:1500]), found_input=False)
+        else: lex_same += 1
     if nnb:
         _, o_, _ = core.run_harness(hb, [nnb], ck.workdir, timeout=300, tag="nnb")
         zi, _ = core.fparse(o_[0])
@@ -411,7 +455,8 @@ def main(replay=None):
     ck.cov.update(evaluations=len(cases), distinct_nontrivial=len(nontriv),
                   rule="generated head descriptions (nested 1-4 layers, zero-conductivity layers, split hemispheres with shared vertices, sibling and non-conductive inclusions) x re-descriptions x concrete syntaxes (1.1 named/commented/interface-shorthand/unnamed, legacy 1.0), ~15% damaged descriptions; non-trivial = loads successfully; distinct = distinct abstract descriptions",
                   samples=[c["mline"][:300] for c in cases[:2]], op_distribution=dist, error_outcomes=errs,
-                  correspondence_mismatches=mism, traces_validated_against_impl=len(cases), probe_points=nprobe)
+                  correspondence_mismatches=mism, traces_validated_against_impl=len(cases) + len(lexcases), probe_points=nprobe,
+                  lexer_cases=dict(same_as_token_level=lex_same, textual_variants=len(lexcases), load_status_by_variant={k: {str(x): v.count(x) for x in set(v)} for k, v in lexstat.items()}))
     ck.cov["trusted_base"] += ["hand-written Gallina model coq/Geom/GeomModel.v tied by exact differential runs (harness/h_c11.cpp vs extract/omm)",
                                "lib/geomdesc.py: name resolution, point identities, solid-angle sign and winding-number oracles (Python floats, margin from the surfaces)",
                                "extraction: ExtrOcamlBasic only"]
